@@ -1227,14 +1227,20 @@ Definition anc_of (g : graph) (id : N) : list N * bool :=
   walk (S (S (length (g_nodes g)))) (parents g) [id] [].
 Definition sum_over (g : graph) (f : tx -> N) (ids : list N) : N :=
   sumN (map (fun id => match get_node g id with Some n => f (n_tx n) | None => 0 end) ids).
-Definition inv_cumulative (g : graph) (maxc : N) : bool :=
+(* shape: diamond-free below and above every node, chain bounds *)
+Definition inv_shape (g : graph) (maxc : N) : bool :=
   forallb (fun n =>
     let '(ds, done) := desc_of g (n_id n) in
     let '(ans, adone) := anc_of g (n_id n) in
     done && nodupN ds && adone && nodupN ans &&
-    (n_cnt n =? lenN ds) && (n_ctip n =? sum_over g t_tip ds) &&
-    (n_cgas n =? sum_over g t_gas ds) && (n_cbytes n =? sum_over g t_size ds) &&
     (n_cnt n <=? maxc) && (lenN ans <=? maxc)) (g_nodes g).
+(* the cumulative fields are exactly the sums over the descendants *)
+Definition inv_cum_exact (g : graph) : bool :=
+  forallb (fun n =>
+    let ds := fst (desc_of g (n_id n)) in
+    (n_cnt n =? lenN ds) && (n_ctip n =? sum_over g t_tip ds) &&
+    (n_cgas n =? sum_over g t_gas ds) && (n_cbytes n =? sum_over g t_size ds)) (g_nodes g).
+Definition inv_cumulative (g : graph) (maxc : N) : bool := inv_shape g maxc && inv_cum_exact g.
 
 (* 10. executable = nodes without dependencies, sorted, keys exact *)
 Fixpoint sorted_keys (l : list ekey) : bool :=
@@ -1249,11 +1255,14 @@ Definition inv_exec (g : graph) (ex : list ekey) : bool :=
                     | None => false end) ex &&
   forallb (fun n => has_dependencies g (n_id n) || memN (n_id n) (map k_id ex)) (g_nodes g).
 
-Definition pool_invb (p : pool) : bool :=
+(* [exact]: also require the cumulative tip/gas/bytes/count fields to be exact *)
+Definition pool_invb_gen (exact : bool) (p : pool) : bool :=
   inv_ids p && inv_edges (p_g p) && inv_creators (p_g p) && inv_cm (p_g p) (p_cm p) &&
   no_conflictb (map n_tx (g_nodes (p_g p))) && inv_accounting p &&
-  inv_cumulative (p_g p) (cfg_max_chain (p_cfg p)) && inv_exec (p_g p) (p_exec p) &&
+  (inv_shape (p_g p) (cfg_max_chain (p_cfg p)) && (negb exact || inv_cum_exact (p_g p))) &&
+  inv_exec (p_g p) (p_exec p) &&
   (lenN (s_lru (p_spent p)) <=? s_cap (p_spent p)) && negb (p_panic p).
+Definition pool_invb (p : pool) : bool := pool_invb_gen true p.
 
 (* ------------------------------------------------------------------ *)
 (* T codecs                                                            *)
@@ -1575,7 +1584,7 @@ Definition pre_g (s : tstep) : graph := p_g (w_pool (ts_pre s)).
 Definition post_g (s : tstep) : graph := p_g (w_pool (ts_post s)).
 
 (* C16 *)
-Definition step16 (s : tstep) : bool := pool_invb (w_pool (ts_post s)).
+Definition step16 (s : tstep) : bool := pool_invb_gen false (w_pool (ts_post s)).
 
 (* C17 *)
 Fixpoint parents_first (g : graph) (seen xs : list N) : bool :=
@@ -1786,7 +1795,7 @@ Definition pcheck (tag : Z) (ops : list op) (tr : list tstep) : bool :=
 Definition inv_bits (p : pool) : T :=
   L (map tB [inv_ids p; inv_edges (p_g p); inv_creators (p_g p); inv_cm (p_g p) (p_cm p);
              no_conflictb (map n_tx (g_nodes (p_g p))); inv_accounting p;
-             inv_cumulative (p_g p) (cfg_max_chain (p_cfg p)); inv_exec (p_g p) (p_exec p);
+             inv_shape (p_g p) (cfg_max_chain (p_cfg p)); inv_cum_exact (p_g p); inv_exec (p_g p) (p_exec p);
              (lenN (s_lru (p_spent p)) <=? s_cap (p_spent p)); negb (p_panic p)]).
 Fixpoint bits19 (o : outstanding) (tr : list tstep) : list T :=
   match tr with
